@@ -785,6 +785,32 @@ def overlap_test(ck, rule="C15.6"):
         else:
             unknown.append(x)
     w = where(fn, rets[0].node) if rets else fn.where
+    # a path that answers "no overlap" must have refuted the necessary disjunct: a short cut in front of the comparisons (same seed,
+    # same peak, label numbers apart ...) lets an overlapping pair through unresolved
+    nec_pair = (T.mk_attr(other, "startPosition"), T.mk_attr(me, "endPosition"))
+
+    def as_pair(x):
+        if x[0] == "mcall" and x[2] == "lessOrEqualOnAnySequence" and len(x[3]) == 1:
+            return (x[1], x[3][0])
+        if x[0] == "app" and x[1].endswith(".lessOrEqualOnAnySequence"):
+            return (x[2], list(dict(x[3]).values())[0])
+        return None
+    if len(rets) > 1:
+        for pa in rets:
+            if pa.value != C(False):
+                continue
+            refuted = set()
+            for c0, tv0, _ in pa.state.assumptions:
+                for y in (c0[1] if c0[0] == "or" else [c0]):
+                    if not tv0 and as_pair(y) is not None:
+                        refuted.add(as_pair(y))
+            if nec_pair not in refuted:
+                conds = "; ".join(("" if tv0 else "not ") + T.show(c0)[:70] for c0, tv0, _ in pa.state.assumptions[-3:])
+                ck.violation(rule, short(fn) + ":short-cut", where(fn, pa.node),
+                             "the overlap test answers 'no overlap' on a path that never compared the later segment's start with the "
+                             "earlier one's end: the pair is handed on unresolved (the join of two records calls the same test on "
+                             "segments the short cut's reasoning does not cover)", found="path under: " + (conds or "<no condition>"),
+                             required=f"{T.show(nec_pair[0])} <= {T.show(nec_pair[1])} refuted before False is returned")
     if unknown:
         raise AnalysisError(f"{w}: conflict test contains an unrecognised disjunct: {T.show(unknown[0])[:160]}")
     # Only one disjunct is *necessary*: the later segment starts at or before the earlier one's end (on some sequence).
